@@ -16,10 +16,12 @@ RULE = ("every spec with <=5 atoms (6 for two-unit graphs) of all four universes
         "generator: subgraph(S) == induced labelled subgraph of the reference model; connected_components() == union-find "
         "partition; compose over every ordered pair of pieces (S1,S2) covering the atoms (3^n covers, overlaps allowed) and over "
         "the component subgraphs in every order == labelled union (later wins) with coherent neighbour sets; composing the "
-        "component subgraphs reproduces the graph.  distinct = (spec, subset, container) + (spec, cover) executions")
+        "component subgraphs reproduces the graph; large graphs (a chain of n atoms with scrambled ids + ring + isolated atoms + a "
+        "stereo/reaction unit, n around 127/128, 255/256, 300; thorough also 512, 1100): components, node components, compose of the "
+        "component subgraphs, a 2/3 induced subgraph.  distinct = (spec, subset, container) + (spec, cover) executions")
 ASSUMPTIONS = ["compose receives lists/tuples (the statement says 'any iterable' for subgraph only)",
                "descriptor / stereo-change kept iff all of its atoms (placeholders excluded) lie in S"]
-BUDGET = {"quick": 200, "thorough": 1200}
+BUDGET = {"quick": 600, "thorough": 1200}
 MG, SMG, CRG, SCRG = RG.MG, RG.SMG, RG.CRG, RG.SCRG
 
 
@@ -51,7 +53,85 @@ def specs(tier):
 
 def items(tier, seed):
     n = len(specs(tier))
-    return [{"lo": lo, "hi": min(n, lo + 4), "tier": tier} for lo in range(0, n, 4)]
+    out = [{"lo": lo, "hi": min(n, lo + 4), "tier": tier} for lo in range(0, n, 4)]
+    out += [{"large": sz, "kind": k, "tier": tier} for sz in LARGE[tier] for k in (MG, SMG, CRG, SCRG)]
+    return out
+
+
+# sizes around the limits of small integer types and (thorough) of the interpreter's recursion limit
+LARGE = {"quick": (126, 127, 128, 129, 130, 255, 256, 257, 300), "thorough": (64, 65, 126, 127, 128, 129, 130, 200, 254, 255, 256, 257, 258,
+                                                                               300, 511, 512, 513, 1100)}
+
+
+def large_spec(kind, n):
+    """a chain of n atoms (ids in a scrambled order), a ring of n//2+3 atoms, two isolated atoms, one ethane-like unit that carries a
+    descriptor (stereo classes) and one formed bond (reaction classes)"""
+    k = 7 if n % 7 else 11
+    chain = [((i * k) % n) for i in range(n)]                  # a permutation of 0..n-1: neighbours in the chain are far apart as ids
+    ring = list(range(n, n + n // 2 + 3))
+    iso = [5000, 5001]
+    atoms = [(a, "C") for a in range(n)] + [(a, "O") for a in ring] + [(a, "He") for a in iso]
+    bonds = [(chain[i], chain[i + 1]) for i in range(n - 1)] + [(ring[i], ring[(i + 1) % len(ring)]) for i in range(len(ring))]
+    cen = [(6000, "C"), (6001, "H"), (6002, "F"), (6003, "Cl"), (6004, "Br")]
+    atoms += cen
+    cb = [(6000, 6001), (6000, 6002), (6000, 6003), (6000, 6004)]
+    if kind in (CRG, SCRG):
+        cb[0] = (6000, 6001, "FORMED")
+    bonds += cb
+    ast = [("Tetrahedral", (6000, 6001, 6002, 6003, 6004), 1)] if kind == SMG else []
+    return U.mk(kind, atoms, bonds, astereo=ast)
+
+
+def _large(item, out):
+    kind, n = item["kind"], item["large"]
+    m = large_spec(kind, n)
+    g = U.build(m)
+    oc = out["outcomes"]
+
+    def V(clause, what):
+        out["viol"].append({"sig": f"C17/{E.SHORT[kind]}/large/{clause}", "input": f"n={n}", "what": what + f" [{kind}: chain of {n} atoms, "
+                            f"ring of {n // 2 + 3}, two isolated atoms, one five-atom unit]", "item": item, "detail": None})
+
+    expect = {frozenset(c) for c in m.components()}
+    out["evals"] += 1
+    out["distinct"] += 1
+    oc["large-components"] = 1
+    try:
+        got = [frozenset(c) for c in g.connected_components()]
+    except Exception as e:
+        V("components-raised:" + type(e).__name__, f"connected_components() raised {e!r}")
+        got = None
+    if got is not None and (set(got) != expect or len(got) != len(expect)):
+        V("components", f"connected_components() returned {len(got)} sets (sizes {sorted(map(len, got))[-4:]}), expected {len(expect)} "
+                        f"(sizes {sorted(map(len, expect))[-4:]})")
+    for a in (0, n - 1, n, 5000, 6002):
+        out["evals"] += 1
+        try:
+            c = frozenset(g.node_connected_component(a))
+        except Exception as e:
+            V("node-component-raised:" + type(e).__name__, f"node_connected_component({a}) raised {e!r}")
+            continue
+        if c != next(x for x in expect if a in x):
+            V("node-component", f"node_connected_component({a}) has {len(c)} atoms, expected {len(next(x for x in expect if a in x))}")
+    # composing the component subgraphs reproduces the graph; a large induced subgraph is exactly the model's
+    out["evals"] += 2
+    try:
+        parts = [g.subgraph(sorted(c)) for c in sorted(expect, key=lambda c: min(c))]
+        comp = type(g).compose(parts)
+        d = diff(norm(snap(comp), drop_empty_changes=True), m.observe())
+        if d:
+            V("compose-components:" + "+".join(d), f"composing the component subgraphs differs from the graph in {d}")
+    except Exception as e:
+        V("compose-raised:" + type(e).__name__, f"subgraph / compose raised {e!r}")
+    S = [a for a in m.atoms if a % 3 != 1]
+    try:
+        sub = g.subgraph(iter(S))
+        d = diff(norm(snap(sub), drop_empty_changes=True), _drop_empty(m.subgraph(S)).observe())
+        if d:
+            V("subgraph:" + "+".join(d), f"subgraph of {len(S)} atoms differs from the induced subgraph in {d}")
+    except Exception as e:
+        V("subgraph-raised:" + type(e).__name__, f"subgraph raised {e!r}")
+    return out
 
 
 def _drop_empty(m):
@@ -74,6 +154,8 @@ CONTAINERS = {
 
 def run_item(item):
     out = {"evals": 0, "distinct": 0, "outcomes": {}, "viol": [], "samples": []}
+    if "large" in item:
+        return _large(item, out)
     oc = out["outcomes"]
     for m in specs(item["tier"])[item["lo"]:item["hi"]]:
         ids = list(m.atoms)
